@@ -35,10 +35,65 @@ type value struct {
 	Bad bool   `json:"bad,omitempty"` // a text that does not parse (numeric leaves only)
 }
 
+// member of a set of flags bound to ONE key with BindFlagsToEnv
+type member struct {
+	Kind    string `json:"kind"`              // nil (Lookup of an undefined flag) | unset | set
+	Default *value `json:"default,omitempty"` // own default (else the binding's Default)
+	Val     *value `json:"val,omitempty"`     // kind set: the value given on the command line
+}
+
 type flagSrc struct {
 	Default value  `json:"default"`
 	Set     *value `json:"set,omitempty"` // explicitly set on the command line
 	Style   int    `json:"style"`         // spelling of the envVar argument of BindFlagToEnv / BindFlagsToEnv
+	// Members, when present, are bound together with BindFlagsToEnv in this order; Default / Set are then DERIVED
+	// (effective): Set = the value of the first member that was set, Default = the default of the last defined member
+	// (what ValueString yields while nothing changed).
+	Members []member `json:"members,omitempty"`
+	base    value    // Default as generated (members without a default of their own use it)
+	baseSet bool
+	anySet  []value  // several members set to DIFFERENT values: the code picks one of them through a set (any is accepted)
+}
+
+// effective derives Default / Set of a binding from its members (also on replay)
+func effective(ty string, f *flagSrc) {
+	if len(f.Members) == 0 {
+		return
+	}
+	if !f.baseSet {
+		f.base, f.baseSet = f.Default, true
+	}
+	base := f.base
+	f.Set, f.anySet = nil, nil
+	for i := range f.Members {
+		m := &f.Members[i]
+		if m.Kind == "nil" {
+			continue
+		}
+		d := base
+		if m.Default != nil {
+			d = *m.Default
+		}
+		f.Default = d
+		if m.Kind == "set" && m.Val != nil {
+			if f.Set == nil {
+				v := *m.Val
+				f.Set = &v
+			}
+			dup := false
+			for _, x := range f.anySet {
+				if valEq(ty, x, *m.Val) {
+					dup = true
+				}
+			}
+			if !dup {
+				f.anySet = append(f.anySet, *m.Val)
+			}
+		}
+	}
+	if len(f.anySet) < 2 {
+		f.anySet = nil
+	}
 }
 
 type leafSrc struct {
@@ -353,6 +408,50 @@ func execute(sc scenario, d *shapeDesc) observation {
 			continue
 		}
 		l := d.leaves[i]
+		define := func(n string, dv value) *pflag.Flag {
+			switch l.Ty {
+			case "str":
+				fs.String(n, dv.S, "")
+			case "int":
+				fs.Int(n, int(dv.N), "")
+			case "bool":
+				fs.Bool(n, dv.N != 0, "")
+			case "float":
+				fs.Float64(n, float64(dv.N)/8, "")
+			case "dur":
+				fs.Duration(n, time.Duration(dv.N)*time.Millisecond, "")
+			}
+			return fs.Lookup(n)
+		}
+		if len(ls.Flag.Members) > 0 {
+			// a set of flags for one key, in the given order; nil members are Lookups of names that were never defined
+			var fl []*pflag.Flag
+			base := memberBase(ls.Flag)
+			for j, m := range ls.Flag.Members {
+				if m.Kind == "nil" {
+					fl = append(fl, fs.Lookup(fmt.Sprintf("undefined%d_%d", i, j)))
+					continue
+				}
+				dv := base
+				if m.Default != nil {
+					dv = *m.Default
+				}
+				fl = append(fl, define(fmt.Sprintf("m%d_%d", i, j), dv))
+			}
+			if err := config.BindFlagsToEnv(session, sc.Prefix, flagArg(sc, l, ls.Flag.Style), fl...); err != nil {
+				o.Kind, o.Err = "other", "bind: "+err.Error()
+				return o
+			}
+			for j, m := range ls.Flag.Members {
+				if m.Kind == "set" && m.Val != nil {
+					if err := fs.Set(fmt.Sprintf("m%d_%d", i, j), render(l.Ty, *m.Val)); err != nil {
+						o.Kind, o.Err = "other", "flag set: "+err.Error()
+						return o
+					}
+				}
+			}
+			continue
+		}
 		names := []string{fmt.Sprintf("f%d", i)}
 		if ls.Flag.Style%5 == 4 {
 			names = append(names, fmt.Sprintf("g%d", i))
@@ -473,6 +572,7 @@ type expectation struct {
 	v     value
 	lax   *value // alternative acceptable value (default of an unset bound flag filling an empty value)
 	bad   bool
+	any   []value // members of one flag set were set to different values: any of them is acceptable
 	shado bool // an environment variable of another FIELD is also the name viper derives for an enclosing structure
 }
 
@@ -481,6 +581,7 @@ func expectLeaf(ty string, ls leafSrc) expectation {
 	switch {
 	case ls.Flag != nil && ls.Flag.Set != nil:
 		e.src, e.v = "flag", *ls.Flag.Set
+		e.any = ls.Flag.anySet
 	case ls.Env != nil && !(ty == "str" && ls.Env.S == ""): // setEnvOptions: AllowEmptyEnv(false)
 		e.src, e.v = "env", *ls.Env
 	case ls.File != nil:
@@ -611,7 +712,14 @@ func oracle(r *h.Run, sc scenario, d *shapeDesc, o observation) {
 	for i, l := range d.leaves {
 		e, got := exps[i], o.Values[i]
 		final[i] = got
-		if valEq(l.Ty, e.v, got) || (e.lax != nil && valEq(l.Ty, *e.lax, got)) {
+		anyOK := false
+		for _, x := range e.any {
+			if valEq(l.Ty, x, got) {
+				anyOK = true
+				r.Count("oracle:one-of-several-set-members")
+			}
+		}
+		if anyOK || valEq(l.Ty, e.v, got) || (e.lax != nil && valEq(l.Ty, *e.lax, got)) {
 			if e.lax != nil {
 				r.Count("oracle:flag-default-fills-empty")
 			}
@@ -678,6 +786,14 @@ func genStyles(r *h.Run) map[string]int {
 		}
 	}
 	return st
+}
+
+// memberBase: the default of members that carry none of their own (the binding's Default as generated, before `effective`)
+func memberBase(f *flagSrc) value {
+	if f.baseSet {
+		return f.base
+	}
+	return f.Default
 }
 
 func keys(m map[string]bool) []string {
@@ -797,11 +913,47 @@ func coqCase(sc scenario, d *shapeDesc, o observation) string {
 			env = append(env, fmt.Sprintf("(%s, %s)", cs(specEnvName(sc.Prefix, l.Tags)), v))
 		}
 		if ls.Flag != nil {
-			set := "None"
-			if ls.Flag.Set != nil {
-				set = "(Some " + coqAval(l.Ty, *ls.Flag.Set) + ")"
+			mflag := func(d value, s *value) string {
+				set := "None"
+				if s != nil {
+					set = "(Some " + coqAval(l.Ty, *s) + ")"
+				}
+				return "(MFlag " + coqAval(l.Ty, d) + " " + set + ")"
 			}
-			flags = append(flags, fmt.Sprintf("(%s, %s, %s, %s)", cs(flagArg(sc, l, ls.Flag.Style)), coqTy[l.Ty], coqAval(l.Ty, ls.Flag.Default), set))
+			var ms []string
+			switch {
+			case len(ls.Flag.Members) > 0:
+				base := memberBase(ls.Flag)
+				for _, m := range ls.Flag.Members {
+					switch m.Kind {
+					case "nil":
+						ms = append(ms, "MNil")
+					default:
+						dv := base
+						if m.Default != nil {
+							dv = *m.Default
+						}
+						var sv *value
+						if m.Kind == "set" {
+							sv = m.Val
+						}
+						ms = append(ms, mflag(dv, sv))
+					}
+				}
+			case ls.Flag.Style%5 == 4: // two flags with the same default, one of them possibly set
+				a, b := mflag(ls.Flag.Default, nil), mflag(ls.Flag.Default, nil)
+				if ls.Flag.Set != nil {
+					if (ls.Flag.Style/5)%2 == 0 {
+						a = mflag(ls.Flag.Default, ls.Flag.Set)
+					} else {
+						b = mflag(ls.Flag.Default, ls.Flag.Set)
+					}
+				}
+				ms = []string{a, b}
+			default:
+				ms = []string{mflag(ls.Flag.Default, ls.Flag.Set)}
+			}
+			flags = append(flags, fmt.Sprintf("(%s, %s, %s)", cs(flagArg(sc, l, ls.Flag.Style)), coqTy[l.Ty], h.List(ms)))
 		}
 		if ls.File != nil {
 			var parts []string
@@ -969,7 +1121,43 @@ func leafWith(r *h.Run, ty string, pattern int, zeroP int) leafSrc {
 		}
 		ls.Flag = &flagSrc{Default: *fd, Style: r.Rng.Intn(10)}
 	}
+	if ls.Flag != nil && r.Rng.Intn(3) == 0 {
+		withMembers(r, ty, ls.Flag, r.Rng.Intn(len(memberTemplates)), fresh)
+	}
 	return ls
+}
+
+// orders of members of a flag set: n nil, u defined but not set, s set (same value), S set to another value
+var memberTemplates = []string{"ns", "us", "nus", "sn", "nnsu", "ss", "unss", "su", "nsn", "uuns", "sS", "nSus", "nu", "un", "nnu", "unu"}
+
+// withMembers turns a binding into a set of flags following a template compatible with it (a set flag needs an s)
+func withMembers(r *h.Run, ty string, f *flagSrc, start int, fresh func(string) *value) {
+	for k := 0; k < len(memberTemplates); k++ {
+		t := memberTemplates[(start+k)%len(memberTemplates)]
+		hasSet := strings.ContainsAny(t, "sS")
+		if hasSet != (f.Set != nil) {
+			continue
+		}
+		f.Members = nil
+		for _, c := range t {
+			switch c {
+			case 'n':
+				f.Members = append(f.Members, member{Kind: "nil"})
+			case 'u':
+				m := member{Kind: "unset"}
+				if r.Rng.Intn(2) == 0 {
+					m.Default = fresh("memberdefault")
+				}
+				f.Members = append(f.Members, m)
+			case 's':
+				v := *f.Set
+				f.Members = append(f.Members, member{Kind: "set", Val: &v})
+			case 'S':
+				f.Members = append(f.Members, member{Kind: "set", Val: fresh("otherflag")})
+			}
+		}
+		return
+	}
 }
 
 func genRequired(r *h.Run, d *shapeDesc, p int) map[string]uint64 {
@@ -1072,6 +1260,36 @@ func deterministic(r *h.Run) []scenario {
 			if l.Ty == "str" && ls.Env.S == "" {
 				ls.Env.S = "env-set"
 			}
+			sc.Leaves = append(sc.Leaves, ls)
+		}
+		out = append(out, sc)
+	}
+	// BindFlagsToEnv: sets of flags in every order (nil, not set, set, several set) under every combination of the sources
+	for ti := range memberTemplates {
+		sh := shapes[ti%len(shapes)]
+		d := describe(sh.name)
+		sc := scenario{Shape: sh.name, Prefix: prefixes[ti%len(prefixes)], Note: "flag-sets:" + memberTemplates[ti]}
+		for i, l := range d.leaves {
+			pattern := (i % 8) // default / file / env in every combination …
+			if strings.ContainsAny(memberTemplates[ti], "sS") {
+				pattern |= 8 // … against a set member
+			}
+			ls := leafWith(r, l.Ty, pattern, 0)
+			if ls.Flag == nil {
+				ls.Flag = &flagSrc{Default: genValue(r, l.Ty, "flagdefault", 0)}
+			}
+			ls.Flag.Style = i % 4
+			ls.Flag.Members = nil
+			seen := map[string]bool{}
+			withMembers(r, l.Ty, ls.Flag, ti, func(src string) *value {
+				for k := 0; ; k++ {
+					v := genValue(r, l.Ty, src, 0)
+					if !seen[render(l.Ty, v)] || k > 20 {
+						seen[render(l.Ty, v)] = true
+						return &v
+					}
+				}
+			})
 			sc.Leaves = append(sc.Leaves, ls)
 		}
 		out = append(out, sc)
@@ -1179,6 +1397,18 @@ func runOne(r *h.Run, sc scenario) {
 		r.Note("scenario does not fit shape " + sc.Shape)
 		return
 	}
+	ambiguous := false
+	for i := range sc.Leaves {
+		if sc.Leaves[i].Flag != nil {
+			effective(d.leaves[i].Ty, sc.Leaves[i].Flag)
+			if len(sc.Leaves[i].Flag.Members) > 0 {
+				r.Count("leaf:flag-set-of-several-members")
+			}
+			if sc.Leaves[i].Flag.anySet != nil {
+				ambiguous = true
+			}
+		}
+	}
 	o := execute(sc, d)
 	r.Eval()
 	r.Count("shape:" + sc.Shape)
@@ -1209,7 +1439,7 @@ func runOne(r *h.Run, sc scenario) {
 	}
 	r.CountN("leaf-source-assignments", nsrc)
 	oracle(r, sc, d, o)
-	if o.Kind != "other" && o.ValOK {
+	if o.Kind != "other" && o.ValOK && !ambiguous { // which of several differently set members wins is not determined
 		r.Case(coqCase(sc, d, o), sc)
 	}
 	r.Sample(map[string]any{"scenario": sc, "observation": o})
